@@ -131,6 +131,14 @@ func updArg(r *gen.R, op string, malformed bool) interface{} {
 		if malformed && r.P(15) {
 			d = append(d, bson.E{Key: "$bogus", Value: int32(1)})
 		}
+		if r.P(35) && len(d) > 1 {
+			// the modifiers of $push are order-insensitive: $each need not come first
+			k := r.N(len(d))
+			d[0], d[k] = d[k], d[0]
+			if len(d) > 2 && r.P(50) {
+				d[1], d[len(d)-1] = d[len(d)-1], d[1]
+			}
+		}
 		return d
 	case "$pop":
 		return []interface{}{int32(1), int32(-1), int64(1), 1.0, -1.0, int32(0), "x", mustD("1")}[r.N(8)]
@@ -781,6 +789,72 @@ func init() {
 				}
 				if strings.Join(before, ",") != strings.Join(after, ",") {
 					add("C11", "untouched fields changed value or position", "untouched-fields", strings.Join(before, ",")+" vs "+strings.Join(after, ","))
+				}
+				// a modifier-form $push ($each anywhere among the keys) never stores the modifier document itself
+				for _, e := range upd {
+					if e.Key != "$push" {
+						continue
+					}
+					cd, _ := e.Value.(bson.D)
+					for _, cnd := range cd {
+						arg, isDoc := cnd.Value.(bson.D)
+						hasEach := false
+						for _, m := range arg {
+							if m.Key == "$each" {
+								hasEach = true
+							}
+						}
+						if !isDoc || !hasEach || strings.Contains(cnd.Key, "$") {
+							continue
+						}
+						if arr, ok := bsonkit.Get(&out.doc, cnd.Key).(bson.A); ok {
+							for _, el := range arr {
+								if vj.Enc(el) == vj.Enc(arg) {
+									add("C11", "$push stored its modifier document as an element", "push-modifiers-stored", cnd.Key)
+								}
+							}
+						}
+					}
+				}
+				// $min / $max from their definition (literal top-level paths, one operator document): an absent field is set to the
+				// operand (whatever its type, null included); a present one is replaced iff the operand is smaller / larger
+				for _, e := range upd {
+					if e.Key != "$min" && e.Key != "$max" {
+						continue
+					}
+					cd, _ := e.Value.(bson.D)
+					for _, cnd := range cd {
+						if strings.ContainsAny(cnd.Key, ".$") || cnd.Key == "" || cnd.Key == "_id" {
+							continue
+						}
+						// only when no other operator of the update touches the same top-level field
+						others := 0
+						for _, e2 := range upd {
+							if cd2, ok := e2.Value.(bson.D); ok {
+								for _, c2 := range cd2 {
+									if strings.SplitN(c2.Key, ".", 2)[0] == cnd.Key {
+										others++
+									}
+									if s2, ok := c2.Value.(string); ok && e2.Key == "$rename" && strings.SplitN(s2, ".", 2)[0] == cnd.Key {
+										others++
+									}
+								}
+							}
+						}
+						if others != 1 {
+							continue
+						}
+						before := bsonkit.Get(&doc, cnd.Key)
+						want := before
+						if before == bsonkit.Missing {
+							want = cnd.Value
+						} else if c := bsonkit.Compare(cnd.Value, before); e.Key == "$min" && c < 0 || e.Key == "$max" && c > 0 {
+							want = cnd.Value
+						}
+						if got := bsonkit.Get(&out.doc, cnd.Key); vj.Enc(got) != vj.Enc(want) {
+							add("C11", e.Key+" result differs from its definition", "minmax-oracle", cnd.Key+": got "+vj.Enc(got)+" want "+vj.Enc(want))
+						}
+					}
 				}
 				// $addToSet adds every value at most once: the elements of the result that were not in the original array are
 				// pairwise different (independent of the model; literal top-level paths only)
